@@ -73,12 +73,63 @@ func decodeCase(c c07Case) (obs, bad string) {
 		if err == nil {
 			return obs, "text outside the base32 alphabet / of an impossible length must be rejected"
 		}
+		// ... by EVERY entry point, not only by DecodeSecret: a validator that decodes on its own may stop at the
+		// first complete '=' run (or at the first foreign byte) and use the key in front of it.  Decided for texts
+		// with an '=' in them or a foreign byte behind a decodable prefix, up to 48 characters.
+		if len(c.Text) <= 48 {
+			if d := rejectedEverywhere(c.Text); d != "" {
+				return obs, d
+			}
+		}
 	case ref.DontCare:
 		if err == nil && want != nil && !bytes.Equal(got, want) {
 			return obs, fmt.Sprintf("accepted, but bytes differ from %x", want)
 		}
 	}
 	return obs, ""
+}
+
+// rejectedEverywhere submits a refused secret text to the three validators together with the code that belongs
+// to the key of each decodable prefix of the text; every verdict must be (false, error).
+func rejectedEverywhere(text string) string {
+	t := strings.TrimSpace(text)
+	var cuts []int
+	for i := 1; i <= len(t); i++ {
+		if t[i-1] == '=' && (i == len(t) || t[i] != '=') {
+			cuts = append(cuts, i) // the end of an '=' run
+		}
+		if i%8 == 0 {
+			cuts = append(cuts, i)
+		}
+	}
+	seen := map[string]bool{}
+	su, _ := otp.NewRawSuite("OCRA-1:HOTP-SHA1-6:QN08")
+	rs, _ := ref.ParseSuite("OCRA-1:HOTP-SHA1-6:QN08")
+	for _, cut := range cuts {
+		v, key := ref.B32Classify(t[:cut])
+		if v != ref.MustAccept || len(key) == 0 || seen[string(key)] {
+			continue
+		}
+		seen[string(key)] = true
+		var bad string
+		if p := try(func() {
+			if ok, err := otp.ValidateHOTP(text, ref.HOTP(key, 5, 6, 0), 5, &otp.Param{Digits: 6}); ok || err == nil {
+				bad = fmt.Sprintf("ValidateHOTP accepts the refused text with the code of the key in front of offset %d: (%v, %v)", cut, ok, err)
+			}
+			if ok, err := otp.ValidateTOTP(text, ref.HOTP(key, 1, 6, 0), time.Unix(59, 0), &otp.Param{Digits: 6, Period: 30}); ok || err == nil {
+				bad = fmt.Sprintf("ValidateTOTP accepts the refused text with the code of the key in front of offset %d: (%v, %v)", cut, ok, err)
+			}
+			if ok, err := otp.ValidateOCRA(text, ref.OCRA(key, rs, ref.OCRAIn{Challenge: []byte("12345678")}), su, otp.OCRAInput{Challenge: []byte("12345678")}); ok || err == nil {
+				bad = fmt.Sprintf("ValidateOCRA accepts the refused text with the code of the key in front of offset %d: (%v, %v)", cut, ok, err)
+			}
+		}); p != "" {
+			return "a validator panicked on the refused text: " + p
+		}
+		if bad != "" {
+			return bad
+		}
+	}
+	return ""
 }
 
 func caseMask(s string, mask uint64) string {
